@@ -355,6 +355,20 @@ fn gen_body(rng: &mut Rng, path: &str, k: &mut u64) -> Vec<u8> {
         match rng.below(14) {
           0 => out.push_str("   "),
           1 => out.push_str("{\"_id\": \"d1\""),
+          3 | 4 | 5 => {
+            // a long malformed line with multi-byte characters at a random byte offset (error
+            // messages that quote or cut the offending line must respect char boundaries)
+            let pad = if rng.chance(1, 2) { 20 + rng.below(120) as usize } else { 8 * (2 + rng.below(8) as usize) - rng.below(4) as usize };
+            let mut line = String::from("{\"_id\": \"");
+            while line.len() < pad {
+              line.push(*rng.pick(&['a', 'b', ' ', 'x'][..]));
+            }
+            for _ in 0..(1 + rng.below(6)) {
+              line.push(*rng.pick(&['é', 'ß', '日', '本', '😀', 'ü'][..]));
+            }
+            line.push_str(" unterminated");
+            out.push_str(&line);
+          }
           2 => out.push_str(*rng.pick(&["[1,2]", "\"str\"", "42", "null"][..])),
           _ => out.push_str(&doc_variant(rng, k).to_string()),
         }
